@@ -204,7 +204,7 @@ impl TypedScenario for C10Clock {
     }
     fn budget(&self, tier: Tier) -> usize {
         clock_sweep_len() + match tier {
-            Tier::Quick => 3000,
+            Tier::Quick => 10_000,
             Tier::Thorough => 2_000_000,
         }
     }
@@ -425,7 +425,7 @@ impl TypedScenario for C10Handshake {
     }
     fn budget(&self, tier: Tier) -> usize {
         POLICIES.len() * IDENTS.len() + match tier {
-            Tier::Quick => 400,
+            Tier::Quick => 2000,
             Tier::Thorough => 200_000,
         }
     }
